@@ -535,5 +535,33 @@ def fromStr (signed : Bool) (nbits : Nat) (bytes : List Nat) (radix intN fracN :
     some (if signed then fromStrI nbits bytes radix intN fracN else fromStrU nbits bytes radix intN fracN)
   else none
 
+/-! ### the four public forms (`impl_from_str_traits!`: `from_str_radix`, `saturating_`, `wrapping_`, `overflowing_from_str_radix`) -/
+
+inductive PForm | plain | saturating | wrapping | overflowing
+deriving DecidableEq, Repr
+
+/-- what a parsing form returns: an error kind (3 = `ParseErrorKind::Overflow`), a value, or a value with the overflow flag -/
+inductive PAns
+  | err (k : Nat)
+  | val (v : Int)
+  | valFlag (v : Int) (o : Bool)
+deriving DecidableEq, Repr
+
+/-- the wrappers around `overflowing_from_str_radix`; the saturating form looks at the first byte of the string
+(`s.starts_with('-')`) to pick the bound -/
+def parseForm (L : Layout) (form : PForm) (bytes : List Nat) (r : ParseResult) : PAns :=
+  match r with
+  | .error k => .err k
+  | .ok (v, o) =>
+    match form with
+    | .overflowing => .valFlag v o
+    | .plain => if o then .err 3 else .val v
+    | .wrapping => .val v
+    | .saturating => if o then .val (if bytes.head? == some 45 then L.min else L.max) else .val v
+
+/-- a public parsing form of the type with layout `L` -/
+def parse (L : Layout) (form : PForm) (radix : Nat) (bytes : List Nat) : Option (Outcome PAns) :=
+  (fromStr L.signed L.n bytes radix L.intBits L.f).map fun o => o.map' (parseForm L form bytes)
+
 end FromStr
 end Sfx
